@@ -299,6 +299,52 @@ def stream_is_strict(comp, workdir):
         os.remove(p)
 
 
+def raw_expat(data, buffer_size=None, record=False):
+    """expat itself, without nibabel: (well-formed?, events delivered).  The oracle of C08_prefix_gifti."""
+    from xml.parsers.expat import ParserCreate, ExpatError
+    p = ParserCreate()
+    p.buffer_text = True
+    p.buffer_size = buffer_size or 35000000
+    ev = []
+    if record:
+        p.StartElementHandler = lambda name, attrs: ev.append(('S', name, dict(attrs)))
+        p.EndElementHandler = lambda name: ev.append(('E', name))
+        p.CharacterDataHandler = lambda d: ev.append(('C', d))
+    try:
+        p.Parse(data, True)
+        return True, ev
+    except ExpatError:
+        return False, ev
+
+
+def gifti_model_classes(plain, avail, strict, buffer_size):
+    """outcome class per cut according to the model of C08_prefix_gifti: expat's verdict on the bytes that are
+    there (measured with pyexpat alone), then - for a well-formed prefix - the handler state machine of
+    coq/C17/Model.v (bin/modelrun_c17) on the events, compared with its result on the complete file"""
+    import c17
+    full_ok, full_ev = raw_expat(plain, buffer_size, True)
+    lines = [c17.model_line('full', full_ev)]
+    todo = {}
+    out = []
+    for i, a in enumerate(avail):
+        if a is None or (strict and a < len(plain)) or a == 0:
+            out.append('E')
+            continue
+        ok, _ = raw_expat(plain[:a], buffer_size)
+        if not ok:
+            out.append('E')
+            continue
+        if a not in todo:
+            todo[a] = f'c{a}'
+            lines.append(c17.model_line(f'c{a}', raw_expat(plain[:a], buffer_size, True)[1]))
+        out.append(a)
+    res = run_model('C17', lines)
+    full_out = res.get('full', '')
+    cls = {a: ('Q' if res.get(cid) == full_out and full_out.startswith('ok') else
+               'E' if res.get(cid, '').startswith('err') else 'D') for a, cid in todo.items()}
+    return ''.join(x if isinstance(x, str) else cls[x] for x in out), len(todo)
+
+
 def read_plain(comp, path):
     from nibabel.openers import Opener
     if comp == '.mgz':
@@ -445,8 +491,19 @@ def run(chk: Check):
                             pl = f"pimg {par['vox']} {step} {par['shape']} {par['w']} {hx(plain)} {mlens}"
                         pcids[mode] = f'{cid}:{mode}'
                         lines.append(f'{cid}:{mode} {pl}')
+                if fam in ('tck', 'trk') and not comp and 'lazy_retry' in modes:
+                    pcids['lazy_retry'] = f'{cid}:lazy_retry'
+                    lines.append(f'{cid}:lazy_retry ' + (f'tckretry {4 * 1048576} 3 {hx(plain)} all' if fam == 'tck'
+                                                          else f'trkretry 3 {hx(plain)} all'))
+                pystr = {}
+                if fam == 'gifti' and os.path.exists(os.path.join(os.path.dirname(os.path.dirname(os.path.abspath(__file__))), 'bin', 'modelrun_c17')):
+                    for mode in modes:
+                        bs = int(mode[2:]) if mode.startswith('bs') else None
+                        avl = av if av is not None else list(range(len(raw)))
+                        pystr[mode], nwf = gifti_model_classes(plain, avl, bool(strict), bs)
+                        chk.tagc('gifti_well_formed_cuts_run_through_C17_handlers', nwf)
                 spec.setdefault('_members', {})[(comp, key)] = dict(raw=raw, plain=plain, av=av, cid=cid if line else None,
-                                                                    pcids=pcids)
+                                                                    pcids=pcids, pystr=pystr)
     t_prep = time.time() - t0
     # ---- run the sweeps in child processes
     with Pool(min(8, os.cpu_count() or 2)) as pool:
@@ -486,13 +543,17 @@ def run(chk: Check):
                 chk.violation('property_violation', case=desc, impl_output=rep,
                               predicate=f'{name}: the file cut at byte {n} of {len(m["raw"])} loads without error as DIFFERENT data')
         # correspondence with the model
-        mcid = m['cid'] if mode in ('full', 'lazy_retry') else m['pcids'].get(mode)
-        if mcid is None:
+        mcid = m['pcids'].get(mode) or (m['cid'] if mode in ('full', 'lazy_retry') else None)
+        if mcid is None and mode not in m['pystr']:
             chk.tagc('oracle_member_predicate_only' if m['cid'] is None else 'predicate_only:' + mode, len(s))
             continue
-        if mode in m['pcids']:
+        if mode in ('slice_step', 'slice_last'):
             chk.tagc('partial_read_vs_fileslice_model', len(s))
-        ms = mod.get(mcid, '<missing>')
+        elif mode == 'lazy_retry' and mode in m['pcids']:
+            chk.tagc('lazy_retry_vs_retry_model', len(s))
+        elif mode in m['pystr']:
+            chk.tagc('gifti_vs_expat_contract_model', len(s))
+        ms = ('ok ' + m['pystr'][mode]) if mode in m['pystr'] else mod.get(mcid, '<missing>')
         if not ms.startswith('ok ') or len(ms) - 3 != len(s):
             chk.disagreements += 1
             chk.violation('correspondence', case={'file': name}, model_output=ms[:200], found_input=False,
@@ -548,11 +609,11 @@ def run(chk: Check):
 
 
 UNPROVED = [
-    'repeated reads from one lazily loaded tractogram object and GIFTI parsing with an explicit buffer_size: no model; '
-    'every cut point is swept against the predicate (exception, or exactly the data written)',
+    'expat satisfies the contract of C08_prefix_gifti (feed_spec, no strict prefix of the document is well-formed, what '
+    'follows the root element is ignored): oracle, measured with pyexpat alone at every cut, not proved',
     'partial reads of a file delivered by a compressed stream that RAISES when it runs out (bz2, zstd): predicate only; '
     'C08_prefix_partial_read covers plain files and streams that end silently (any prefix of the plain bytes)',
-    'GIFTI (expat) and the SPM .mat member (scipy.io.loadmat): no model; every cut point is swept against the predicate only',
+    'the SPM .mat member (scipy.io.loadmat): no model; every cut point is swept against the predicate only',
     'that gzip/bz2/zstd/indexed_gzip satisfy the contract of C08_prefix_compressed (a truncated stream delivers a prefix of '
     'the plain bytes, then raises or ends): oracle, measured by the harness on every cut point, not proved',
     'np.memmap of a region beyond the end of a file raises: runtime behaviour, observed (mmap=True sweep), not proved',
